@@ -117,6 +117,24 @@ var c14all, c14matrixStart = func() ([]c14class, int) {
 	return all, start
 }()
 
+// items whose path cannot even be looked at: lstat fails with something other than "does not exist"
+var c14parentStart = len(c14all)
+
+func init() {
+	plantFile := func(h, p string) { os.WriteFile(filepath.Dir(h), []byte("a file where a directory is expected"), 0644) }
+	plantLoop := func(h, p string) { os.Symlink("loop", filepath.Dir(h)) }
+	long := strings.Repeat("n", 300)
+	for _, mk := range []bool{false, true} {
+		tag := map[bool]string{false: "", true: "+MkdirAll"}[mk]
+		c14all = append(c14all,
+			c14class{"parent-is-a-planted-file(ENOTDIR)" + tag, true, os.O_CREATE | os.O_WRONLY, mk, plantFile, "blk/f"},
+			c14class{"parent-is-a-link-loop(ELOOP)" + tag, true, os.O_CREATE | os.O_WRONLY, mk, plantLoop, "loop/f"},
+			c14class{"name-longer-than-255-bytes(ENAMETOOLONG)" + tag, true, os.O_CREATE | os.O_WRONLY, mk, nil, long},
+			c14class{"existing-file-read-through-a-planted-file-parent(ENOTDIR)" + tag, true, os.O_RDONLY, mk, plantFile, "blk/f"},
+		)
+	}
+}
+
 // c14group: classes that block for the same reason share one memo entry
 func c14group(c c14class) string {
 	if i := strings.Index(c.name, "("); i > 0 {
@@ -143,10 +161,10 @@ func init() {
 		}
 		spec := &mc.Spec{
 			Level: "exploration",
-			Rule: "Open: every batch of length 0…maxLen over 20 item classes (new file ± MkdirAll, missing parent, existing regular file read-only / write+truncate / read-write, planted symlink to a regular file / to a host file / dangling with O_CREAT, FIFO read and write, socket, directory, MkdirAll blocked by a planted file) on a real container whose tmpfs is prepared from the host side; plus batches of 253 and 254 successes; plus the flag matrix: every planted non-regular kind (FIFO, directory, socket, three symlink kinds) × access mode × 10 extra flag words (O_NOFOLLOW, O_NONBLOCK, O_DIRECTORY, O_PATH and combinations), each followed by an ordinary item; " +
+			Rule: "Open: every batch of length 0…maxLen over 20 item classes (new file ± MkdirAll, missing parent, existing regular file read-only / write+truncate / read-write, planted symlink to a regular file / to a host file / dangling with O_CREAT, FIFO read and write, socket, directory, MkdirAll blocked by a planted file) on a real container whose tmpfs is prepared from the host side; plus batches of 253 and 254 successes; plus the flag matrix: every planted non-regular kind (FIFO, directory, socket, three symlink kinds) × access mode × 10 extra flag words (O_NOFOLLOW, O_NONBLOCK, O_DIRECTORY, O_PATH and combinations), each followed by an ordinary item; plus items whose path cannot be looked at (parent is a planted regular file, a link loop, a name longer than 255 bytes; with and without MkdirAll) placed before, between and after two ordinary items; " +
 				"Symlink: every batch ≤ maxLen over {new, existing path, missing parent}; Delete: file, empty dir, non-empty dir, missing, planted symlink. Oracle: len(results)=len(batch); result k is an error iff item k's class must fail; a returned file k has the (dev, ino) of the object at path k seen from the host, the requested access mode and close-on-exec; the call returns within the horizon; other items and a following Ping are unaffected; nothing planted is followed. " +
 				"non-trivial: the batch mixes successes and failures or contains a planted object; distinct = (batch, per-item outcome)",
-			Bound:       map[string]any{"max_len": maxLen, "classes": len(c14classes)},
+			Bound:       map[string]any{"max_len": maxLen, "classes": len(c14classes), "unreachable_path_classes": 8},
 			Assumptions: []string{"objects are planted through /proc/<init>/root by the harness (same effect as a previous program); device nodes and unreadable files are not in the alphabet (the init is root in its user namespace; mknod is not permitted there)"},
 			SplitDepth:  2,
 			Workers:     4,
@@ -155,7 +173,17 @@ func init() {
 		spec.Init = func() error { devnull(); return nil }
 		spec.Fini = func() { c14pool.drop(); cleanupTmp() }
 		spec.Body = func(x *mc.X) {
-			switch x.Pick("op", "open", "open-many", "symlink", "delete", "open-flag-matrix") {
+			switch x.Pick("op", "open", "open-many", "symlink", "delete", "open-flag-matrix", "open-unreachable-path") {
+			case "open-unreachable-path":
+				k := x.Choose(len(c14all)-c14parentStart, "unreachable")
+				pos := x.Choose(3, "position")
+				if x.Dry() {
+					return
+				}
+				// the item sits first, between or after two ordinary new files: refused by itself, the neighbours unaffected
+				batch := []int{0, 0}
+				batch = append(batch[:pos], append([]int{c14parentStart + k}, batch[pos:]...)...)
+				c14open(x, batch)
 			case "open-flag-matrix":
 				k := x.Choose(len(c14kinds), "planted")
 				a := x.Choose(len(c14accmodes), "access")
